@@ -119,6 +119,13 @@ func detectContentType(r io.Reader) (string, io.Reader, error) {
 	}
 
 	ct := http.DetectContentType(buf[:n])
+	// The sniffing algorithm tries other signatures before gzip's, and some of
+	// them only look at bytes in the middle of the data (an Embedded OpenType
+	// font is "LP" at offset 34): compressed bytes match those by accident. The
+	// gzip magic number at the start is unambiguous.
+	if n >= 3 && buf[0] == 0x1f && buf[1] == 0x8b && buf[2] == 0x08 {
+		ct = "application/x-gzip"
+	}
 
 	// If we are a seeker, we can just undo our read
 	if s, ok := r.(io.Seeker); ok {
